@@ -132,9 +132,55 @@ def reconnect_oracle(case, lines):
     return None
 
 
+def no_worker_case(variant, n):
+    """a request is taken from the frontend while the backend has NO peer (before the first worker connects / after the
+    last one's end was seen): `proxy()` may end with the error — the sockets go away with it — but it must not keep
+    running having dropped the message.  If it is still running when a worker joins, the worker gets every request taken."""
+    sc = wg.Script()
+    sc.sock(1, "ROUTER")
+    sc.sock(2, "DEALER")
+    sc.attach(1, 1, "REQ", b"c1")
+    if variant == "worker-gone":
+        sc.attach(2, 12, "REP", b"w0")
+        sc.add("eof 12")
+        f0 = sc.fut()
+        sc.add(f"recv {f0} 2", f"poll {f0}", f"drop {f0}")      # the DEALER notices that its only worker is gone
+    g = sc.fut()
+    sc.add(f"attach {g} 2 11")                                   # the (next) worker's handshake future, polled later
+    sc.add("wire 1")
+    f = sc.fut()
+    sc.add(f"proxy {f} 1 2", f"poll {f}")
+    sc.reveal_msg(1, [b"", b"A1"])
+    sc.add(f"poll {f}")
+    sc.add(f"reveal 11 {wg.hx(wg.G + zmtp.ready('REP', b'w1'))}", f"poll {g}", "wire 11")
+    sc.reveal_msg(1, [b"", b"A2"])
+    sc.add(f"poll {f}", f"poll {f}", "wire 11", "halves 1")
+    c = sc.case(f"no-worker-{variant}#{n}", ["no-worker"])
+    c.expect = ("no-worker", f)
+    return c
+
+
+def no_worker_oracle(case, lines):
+    res = list(zip(case.ops, lines[1:]))
+    f = case.expect[1]
+    polls = [l for op, l in res if op == f"poll {f}"]
+    ended = any(l.startswith("ready") for l in polls)
+    if ended:
+        return None      # the proxy returned its error: nothing is forwarded any more, and nothing was silently dropped by a running proxy
+    w11 = [l for op, l in res if op == "wire 11"][-1]
+    want = wg.show_wire([[b"c1", b"", b"A1"], [b"c1", b"", b"A2"]])
+    if w11 != "wire " + want:
+        return (f"the proxy kept running but a request it had TAKEN from the frontend (A1) was never sent on the backend: the worker "
+                f"that joined got {w11[:80]} (want both requests: {want[:60]}…)")
+    return None
+
+
 def cases(tier, rng):
     out = gen.corpus(ID)
     n = 0
+    for variant in ("never-had-a-worker", "worker-gone"):
+        out.append(no_worker_case(variant, 980000 + n))
+        n += 1
     for variant in ("open", "eof"):
         for shape in SHAPES:
             out.append(reconnect_case(variant, shape, n))
@@ -198,6 +244,8 @@ def oracle(case, lines):
         return None
     if case.expect[0] == "reconnect":
         return reconnect_oracle(case, lines)
+    if case.expect[0] == "no-worker":
+        return no_worker_oracle(case, lines)
     nc, nw, exp_back, exp_front, all_fwd, has_cap = case.expect
     res = list(zip(case.ops, lines[1:]))
     if any(op.startswith("poll") and l.startswith("ready") for op, l in res[-(nc + nw + 4):]):
@@ -262,7 +310,7 @@ def oracle(case, lines):
 
 def nontrivial(case, lines):
     e = case.expect
-    if e and e[0] == "reconnect":
+    if e and e[0] in ("reconnect", "no-worker"):
         return any(l.startswith("wire ") and l != "wire ." for l in lines)
     return bool(e and e[2] and e[3])
 
